@@ -137,6 +137,37 @@ CLAIMED['C16'] = {
     'technique': 'Coq computation (vm_compute) over regenerated map data, one theorem per map + extracted-model correspondence',
 }
 
+CLAIMED['C15'] = {
+    'text': 'Theorems (Props/C15.v) about the hand model of element_if.is_valid: for every element definition that is well formed, '
+            'every candidate value (any string or absent), charset B/E and any exclusion setting, validation terminates without '
+            'raising, reports exactly the set of error codes that the definition implies clause by clause (usage, min/max '
+            'length with sign/point not counted, type language from the C13 theorems, inline and external code lists, regex, '
+            'qualifier-selected formats), and returns false iff a code was reported; the one deviation of the code '
+            '(a control character pre-empts the remaining clauses) is stated exactly and recorded as a finding. The model '
+            'is tied to the code by running model, spec and implementation on every boundary value of every element node of '
+            'the shipped maps (35k cases quick) and on whole random segments (composites, too many elements).',
+    'design_ref': 'DESIGN.md §6 C15, §11',
+    'note': 'Trusted: Coq kernel; hand transcription Model/Element.v + loader; C13 regex transcription; XmlSer glue; extraction; '
+            'Spec/C15_spec.v is my reading of the property. Composite/segment level is correspondence-only.',
+    'technique': 'Coq proof (case analysis over the validation pipeline, reusing the C13 language theorems) + extracted-model correspondence',
+}
+CLAIMED['C18'] = {
+    'text': 'PARTIAL. Proved in Coq over an effect summary regenerated from every module of pyx12/ on each run: the set of '
+            'functions reachable from x12n_document, X12ContextReader.__init__/iter_segments and xmlx12_simple.convert in the '
+            'name-based call graph is computed and proved closed and complete (induction over call paths), no reachable '
+            'function contains a write to an object that outlives the call (module-level binding, class attribute, mutable '
+            'default argument or an attribute assigned one), and clock/random reads occur only in the two acknowledgement '
+            'visit_root_pre methods and the HTML header. The summary is a syntactic over-approximation produced by my '
+            'translator (trusted, not proved sound); what the theorem cannot see - hash seed, interpreter caches, logging, '
+            'aliasing through containers - is covered only by the differential: random sequences of documents processed in one '
+            'interpreter, with and without a reused params object and repeated documents, each output compared with a fresh '
+            'interpreter under a random PYTHONHASHSEED.',
+    'design_ref': 'DESIGN.md §6 C18, §11',
+    'note': 'Partial: theorem is about the generated effect summary, not about CPython. Adding a persistent write or a clock '
+            'read on a reachable path breaks the theorem; the differential then searches for a history that shows it.',
+    'technique': 'Coq proof over a regenerated effect/call-graph summary (reachability closure by vm_compute, completeness by induction) + history differential',
+}
+
 NOT_YET = {
 }
 
